@@ -8,7 +8,7 @@ package tcp
 // omitted iff empty. (Escaping inside jwriter.String is the library's.)
 //@ func easyjsonD3b49167EncodeGithubComVByteCpuSxPkgScanTcp
 //@   sig out, in
-//@   props C14
+//@   props C14 C03 C06 C16 C20
 //@   observe RawByte, RawString, String, Uint16
 //@   entry row noflags: [call RawByte(out, 123) ; call RawString(out, "\"scan\":") ; call String(out, in.ScanType) ; call RawString(out, ",\"ip\":") ; call String(out, in.IP) ;
 //@                       call RawString(out, ",\"port\":") ; call Uint16(out, in.Port) ; call RawByte(out, 125)] when in.Flags == "" -> exit
@@ -16,7 +16,7 @@ package tcp
 //@                       call RawString(out, ",\"port\":") ; call Uint16(out, in.Port) ; call RawString(out, ",\"flags\":") ; call String(out, in.Flags) ; call RawByte(out, 125)] when in.Flags != "" -> exit
 //@ func (ScanResult).MarshalJSON
 //@   sig v
-//@   props C14
+//@   props C14 C03 C06 C16 C20
 //@   observe easyjsonD3b49167EncodeGithubComVByteCpuSxPkgScanTcp, BuildBytes
 //@   entry row enc: [call easyjsonD3b49167EncodeGithubComVByteCpuSxPkgScanTcp(bind_w, v) ; call BuildBytes(_, _) as (b)] when ret0 == b -> exit
 
@@ -48,7 +48,7 @@ package tcp
 //@ func BPFFilter
 //@   sig r
 //@   locals sb: strings.Builder ;; ranges: []string ;; pr: *github.com/v-byte-cpu/sx/pkg/scan.PortRange
-//@   props C03
+//@   props C03 C01 C02
 //@   modifies nothing
 //@   observe (*strings.Builder).WriteString, (*strings.Builder).WriteRune, (*strings.Builder).String, (*net.IPNet).String, fmt.Sprintf, strings.Join
 //@   entry row bare:    [call WriteString(_, "tcp") ; call String(_) as (res)] when r.DstSubnet == nil && len(r.Ports) == 0 && ret0 == res && ret1 == 1518 -> exit
@@ -64,7 +64,7 @@ package tcp
 //@   loop 0 row close:  [call strings.Join(ranges, " or ") as (j) ; call WriteString(_, j) ; call WriteRune(_, 41) ; call String(_) as (res)] when ret0 == res && ret1 == 1518 -> exit
 //@ func SYNACKBPFFilter
 //@   sig r
-//@   props C03
+//@   props C03 C01 C02
 //@   modifies nothing
 //@   observe BPFFilter
 //@   entry row synack: [call BPFFilter(r) as (f, n)] when ret0 == f + " and tcp[13] == 18" && ret1 == n -> exit
@@ -228,7 +228,7 @@ package tcp
 // plain-text form of a record: printing never panics, whatever the scanned host put into the record (C03 C16)
 //@ func (*ScanResult).String
 //@   sig r
-//@   props C03 C16
+//@   props C03 C16 C06 C14 C20
 
 // the scan method's packet stream is its packet source's, its results are the result channel's
 //@ func (*ScanMethod).Packets
